@@ -196,15 +196,21 @@ Definition list_N_eqb (a b : list N) : bool := if list_eq_dec N.eq_dec a b then 
 Definition sx_eqb (a b : sx) : bool := list_N_eqb (print a) (print b).
 Definition aeqb (a b : answer) : bool := sx_eqb (answer_sx a) (answer_sx b).
 Definition keqb (a b : kids) : bool := sx_eqb (kids_sx a) (kids_sx b).
+(* answers are compared without the version string: the property constrains versions only through
+   "changes whenever the data changes" (clause version_tracks_data); whether a system is known at all
+   (version present or not) is kept *)
+Definition erase (a : answer) : answer :=
+  match a with AGet k (Some _) => AGet k (Some []) | _ => a end.
+Definition deqb (a b : answer) : bool := aeqb (erase a) (erase b).
 
 (* a system's version changes whenever its data changes: equal versions, equal data *)
-Definition vt_pair (a b : answer) : bool :=
-  match a, b with
-  | AGet k1 v1, AGet k2 v2 => if ostr_eqb v1 v2 then keqb k1 k2 else true
-  | _, _ => true
-  end.
+Definition vt_key (a : answer) : list (option str * list N) :=
+  match a with AGet k v => [(v, print (kids_sx k))] | _ => [] end.
+Definition vt_pair (p q : option str * list N) : bool :=
+  if ostr_eqb (fst p) (fst q) then list_N_eqb (snd p) (snd q) else true.
 Definition answers (o : obs) : list answer := flat_map (fun ab => [fst ab; snd ab]) o.
-Definition vt_all (l : list answer) : bool := forallb (fun a => forallb (vt_pair a) l) l.
+Definition vt_all (l : list answer) : bool :=
+  let ps := flat_map vt_key l in forallb (fun p => forallb (vt_pair p) ps) ps.
 
 Fixpoint check (O : oracle) (c : cfg) (f : fstate) (h : list hstep) (o : obs) : list string :=
   match h with
@@ -215,12 +221,12 @@ Fixpoint check (O : oracle) (c : cfg) (f : fstate) (h : list hstep) (o : obs) : 
       | [] => ["obs_shape"%string]
       | (a, b) :: o' =>
           let s := spec_answer O c f cl in
-          (if aeqb b s then [] else
+          (if deqb b s then [] else
              [match cl with CGet _ => "first_line_wins"%string | CFind _ _ => "find_spec"%string end]) ++
-          (if aeqb a s then [] else
+          (if deqb a s then [] else
              [match cl with CGet _ => "reload_complete_get_data"%string
                           | CFind _ _ => "reload_complete_find_system"%string end]) ++
-          (if aeqb a b then [] else ["no_remnant_same_as_fresh_source"%string]) ++
+          (if deqb a b then [] else ["no_remnant_same_as_fresh_source"%string]) ++
           check O c f r o'
       end
   end.
